@@ -118,6 +118,13 @@ class Outer(object):
 RemoteError = type("RemoteError", (Exception,), {"__module__": None})
 
 
+def make_local_error_class():
+    """An exception class defined inside a function: __qualname__ is '...<locals>.LocalError', __name__ is 'LocalError'."""
+    class LocalError(Exception):
+        pass
+    return LocalError
+
+
 POOL = {
     "ValueError": ValueError,
     "KeyError": KeyError,
